@@ -28,11 +28,12 @@ DeclDesc == [structs |-> [Q |-> QF, Sub |-> SubF], from |-> TyStruct("Q"), to |-
 Strip(fs, u) == [i \in 1..Len(fs) |-> IF u THEN fs[i] ELSE [fs[i] EXCEPT !.hasd = FALSE, !.dflt = NoD]]
 Defs(u) == [Q |-> Strip(QF, u), Sub |-> Strip(SubF, u)]
 
-VarIds == IF Full THEN {1, 2, 3, 4, 5, 6} ELSE {1, 2, 3, 4, 5}
+VarIds == {1, 2, 3, 4, 5, 6}
 Opts == {[wreq |-> a, wdef |-> b, wopt |-> c, optbm |-> d, usedflt |-> e] : a \in BOOLEAN, b \in BOOLEAN, c \in BOOLEAN, d \in BOOLEAN, e \in BOOLEAN}
 \* null is only used for required fields: whether a null optional/default field is filled is not fixed by the property
 ReqIds == {QF[i].id : i \in {k \in 1..Len(QF) : QF[k].req = "req"}}
-Init == pres \in {p \in [VarIds -> {"absent", "null", "present"}] : \A id \in VarIds : p[id] = "null" => id \in ReqIds} /\ opt \in Opts
+\* (the required field with a default, id 6, is only absent or present unless Full: null is covered by id 1)
+Init == pres \in {p \in [VarIds -> {"absent", "null", "present"}] : \A id \in VarIds : p[id] = "null" => (id \in ReqIds /\ (Full \/ id # 6))} /\ opt \in Opts
         /\ sub \in {"full", "empty", "elems"}     \* the nested struct carries its required field | is present but empty | also as list elements
 Next == UNCHANGED vars
 Spec == Init /\ [][Next]_vars
